@@ -612,3 +612,7 @@ mod c01 { include!(concat!(env!("VERIF_HX_DIR"), "/daemon/event_c01_hx.rs")); }
 mod accept_hx {
     include!(concat!(env!("VERIF_HX_DIR"), "/daemon/event_accept_hx.rs"));
 }
+
+// C14 per-peer policy assignments (unit u6)
+#[allow(dead_code)]
+mod c14 { include!(concat!(env!("VERIF_HX_DIR"), "/daemon/event_policy_hx.rs")); }
